@@ -27,6 +27,12 @@ pub fn special_numbers() -> Vec<u64> {
         let p = 10u64.pow(k);
         v.extend([p - 1, p, p + 1]);
     }
+    for unit in [60u128, 1440, 3600, 86_400, 604_800, 512, 1024, 1 << 20, 1 << 30, 1u128 << 40] {
+        for top in [1u128 << 31, 1 << 32, 1 << 63, 1 << 64] {
+            let q = (top / unit) as u64;
+            v.extend([q.saturating_sub(1), q, q.saturating_add(1)]);
+        }
+    }
     v.sort();
     v.dedup();
     v
